@@ -2,7 +2,7 @@
 strings (the bit-sequence semantics of C05/C06/C13/C16).  After every step EVERY buffer of the pool must still denote its shadow:
 this catches what single-operation checks cannot -- results aliased with operands or with module-level objects, caches that
 survive an in-place edit, iterators sharing state, and any other action at a distance."""
-from core import mk, bits_of, canonical, L, R, randbits, Buffer, side_char
+from core import mk, bits_of, canonical, L, R, randbits, Buffer, side_char, time_limit, Timeout
 
 
 def step(rnd, pool, shadow, log):
@@ -152,7 +152,11 @@ def run_program(rnd, nsteps):
         bits = randbits(rnd, rnd.choice([0, 2, 5, 8, 11, 16, 23]))
         pool['b%d' % i], shadow['b%d' % i] = mk(bits, rnd.choice([L, R])), bits
     for _ in range(nsteps):
-        f = step(rnd, pool, shadow, log)
+        try:
+            with time_limit(20):
+                f = step(rnd, pool, shadow, log)
+        except Timeout:
+            f = '%s on %s did not return within 20 s' % log[-1]
         if f:
             return f, log
         if len(pool) > 14:      # keep the pool small: forget the oldest derived values
